@@ -79,6 +79,10 @@ fn judge_v1_at(line: &[u8], element: &str, expect: Option<K1>, rec: &mut Recorde
         if rec.verbose {
             println!("  {} -> {:?}", entry, o);
         }
+        // a character after the CR: the text entry points see a string, so the only malformed
+        // element is what follows the CR; the byte entry points may also call it invalid UTF-8
+        // (the examined window ends inside the character) - any terminal error there
+        let expect = if element == "char-after-cr" && entry != "v1-bytes" && entry != "auto" { Some(K1::InvalidSuffix) } else { expect };
         let bad = match &o {
             O1::Ok { .. } => Some(format!("accepted: {}", o.class())),
             O1::Panic(m) => Some(format!("panic / wrong variant: {}", m)),
@@ -225,6 +229,28 @@ fn v1_extra(idx: u64, rng: &mut Rng, rec: &mut Recorder) {
     if !matches!(v1_ref(format!("{}\r\n", body).as_bytes()), V1Ref::Accept(_)) {
         return;
     }
+    if idx % 16 == 13 {
+        // a whole (multi-byte) character after the CR instead of the LF, the CR anywhere up to the
+        // last position that still leaves the line within the limit
+        let mut line = body.into_bytes();
+        if line.starts_with(b"PROXY UNKNOWN") && rng.coin() {
+            if !line.starts_with(b"PROXY UNKNOWN ") {
+                line.push(b' ');
+            }
+            let want = rng.range(96, 105) as usize;
+            while line.len() < want {
+                line.push(*rng.pick(b"abc 0:."));
+            }
+            line.truncate(want.max(14));
+        }
+        line.push(b'\r');
+        line.extend_from_slice(rng.pick(&["\u{e9}", "\u{20ac}", "\u{1f600}", "\u{80}", "\u{7ff}", "\u{ffff}"]).as_bytes());
+        if rng.coin() {
+            line.extend_from_slice(b"\nrest");
+        }
+        judge_v1(&line, "char-after-cr", None, rec);
+        return;
+    }
     match idx % 4 {
         0 | 1 => {
             // the byte after CR, every value but LF
@@ -252,8 +278,13 @@ fn v1_extra(idx: u64, rng: &mut Rng, rec: &mut Recorder) {
             // an UNKNOWN line made longer than 107 bytes
             let total = rng.range(108, 140) as usize;
             let mut s = String::from("PROXY UNKNOWN ");
+            // (multi-byte characters among the fillers: bytes, not characters, are counted)
+            let wide = rng.chance(1, 3);
             while s.len() + 2 < total {
-                s.push(*rng.pick(&['x', ' ', '1', ':']));
+                s.push(*rng.pick(if wide { &['x', ' ', '\u{e9}', '\u{6771}', '\u{1f600}', ':'][..] } else { &['x', ' ', '1', ':'][..] }));
+            }
+            if s.len() + 2 < 108 {
+                return;
             }
             s.push_str("\r\n");
             judge_v1(s.as_bytes(), "line-length", Some(K1::HeaderTooLong), rec);
